@@ -339,7 +339,7 @@ pub fn c06(tier: Tier) -> i32 {
     let descs = member_descriptions();
     let kinds: [&[&'static str]; 4] = [&["contract"], &["abstract", "contract"], &["library"], &["interface"]];
     // ---- family 1: every member description alone / with <= 2 neighbours, in every contract kind
-    let mut items: Vec<(String, String, Vec<usize>)> = Vec::new();
+    let mut items = refdet::Batch::new(&ds, Mode::Semantic, false);
     for (label, mk) in &descs {
         for kw in kinds.iter() {
             items.push(item_text(format!("alone:{}:{}", kw.join(" "), label), vec![as_item(kw, "C", vec![mk(0)])]));
@@ -373,14 +373,14 @@ pub fn c06(tier: Tier) -> i32 {
             }
         }
     }
-    let sw = refdet::sweep_texts(&items, &ds, Mode::Semantic);
+    let (sw, smp) = items.finish();
     require_must(&mut run, &sw, &["payable_function", "private_constant", "private_vars_leading_underscore", "private_func_leading_underscore", "constructor_order"], "members");
-    let sample1 = json!({"label": items[items.len() / 2].0, "text": items[items.len() / 2].1});
+    let sample1 = json!({"label": smp.as_ref().map(|x| x.0.clone()), "text": smp.as_ref().map(|x| x.1.clone())});
     absorb(&mut run, sw, "members");
 
     // ---- family 2: constructor_order, all member-kind sequences in all files of <= 2 (3) contracts
     let co: Vec<_> = ds.iter().filter(|d| d.name == "constructor_order").cloned().collect();
-    let mut items2: Vec<(String, String, Vec<usize>)> = Vec::new();
+    let mut items2 = refdet::Batch::new(&co, Mode::Semantic, false);
     let mk_contract = |name: &'static str, kw: &[&'static str], seq: &[usize], base: usize| -> Frag { as_item(kw, name, seq.iter().enumerate().map(|(i, &k)| co_member(k, base + i)).collect()) };
     let long = sequences(if tier == Tier::Quick { 5 } else { 6 });
     for s in &long {
@@ -419,9 +419,9 @@ pub fn c06(tier: Tier) -> i32 {
         ms.push(co_member(4, 0));
         items2.push(item_text(format!("count:modifiers:{}", k), vec![as_item(&["contract"], "A", ms)]));
     }
-    let sw2 = refdet::sweep_texts(&items2, &co, Mode::Semantic);
+    let (sw2, smp2) = items2.finish();
     require_must(&mut run, &sw2, &["constructor_order"], "constructor-order-sequences");
-    let sample2 = json!({"label": items2[items2.len() / 3].0, "text": items2[items2.len() / 3].1});
+    let sample2 = json!({"label": smp2.as_ref().map(|x| x.0.clone()), "text": smp2.as_ref().map(|x| x.1.clone())});
     absorb(&mut run, sw2, "constructor-order-sequences");
 
     // ---- family 3: Σ_D (declaration alternatives alone and in ordered pairs) for all five detectors
